@@ -152,3 +152,40 @@ Print Assumptions C12_auto_tags_refuted.
 Theorem C12_engines_agree : forall root, root_config_v0 root = root_config_v1 root.
 Proof. exact engines_agree. Qed.
 Print Assumptions C12_engines_agree.
+
+(* ---- earlier uses of the nested class in the same interpreter (histories) ---- *)
+
+(* First use: whatever the operation (dump / load), the nested class reached under a root behaves as a
+   stand-alone class with Meta effective(own, root). *)
+Theorem C12_history_fresh :
+  forall own_ root k,
+  hist_behaviour own_ [] {| u_kind := k; u_root := Some root |} = spec_behaviour (effective own_ root).
+Proof. exact hist_fresh_effective. Qed.
+Print Assumptions C12_history_fresh.
+
+(* After ANY earlier uses of the class (dumped or loaded on its own, under other roots with other Metas, in any
+   order): the skip rules, the unknown-key policies, the tag, the emitted tag key and the explicit key maps are
+   still those of effective(own, root) — they are read from the merged Meta each time a function is generated. *)
+Theorem C12_history_independent :
+  forall own_ h root k,
+  stable_part (hist_behaviour own_ h {| u_kind := k; u_root := Some root |}) = stable_part (spec_behaviour (effective own_ root)).
+Proof. exact hist_stable_effective. Qed.
+Print Assumptions C12_history_independent.
+Example C12_history_ex :
+  let own_ := Some [(k_skip_defaults, VBool false)] in
+  let h := [{| u_kind := UDump; u_root := None |}; {| u_kind := ULoad; u_root := Some (Some [(k_ktd, VStr (S "SNAKE"))]) |}] in
+  b_skip_if (hist_behaviour own_ h {| u_kind := UDump; u_root := Some (Some [(k_skip_if, VTok 3)]) |}) = Some (VTok 3).
+Proof. vm_compute. reflexivity. Qed.
+
+(* The key transforms (and the timestamp hooks, the whitelisted tag keys, v1's alias table) DO depend on earlier
+   uses — finding F10 seen from C12: a class without Meta dumped on its own, then under a root with
+   key_transform_with_dump = PASCAL, keeps its camelCase keys. *)
+Theorem C12_history_refuted :
+  exists own_ h root,
+    b_dp_case (hist_behaviour own_ h {| u_kind := UDump; u_root := Some root |})
+    <> b_dp_case (spec_behaviour (effective own_ root)).
+Proof.
+  exists None, [{| u_kind := UDump; u_root := None |}], (Some [(k_ktd, VStr (S "PASCAL"))]).
+  vm_compute. discriminate.
+Qed.
+Print Assumptions C12_history_refuted.
